@@ -22,11 +22,11 @@ type Command struct {
 	Parts []Part
 }
 
-// utf.DecodeRune returns the utf8.RuneError for errors. But that is actually rune U+FFFD -- the unicode replacement
-// character. utf8.RuneError is not an error if it is also width 3.
-//
-// https://github.com/jackc/pgx/issues/1380
-const replacementcharacterwidth = 3
+// utf8.DecodeRuneInString returns utf8.RuneError with width 0 only at the end of the input. Width 3 is the
+// replacement character U+FFFD itself (https://github.com/jackc/pgx/issues/1380) and width 1 an invalid UTF-8 byte:
+// both are ordinary content for the byte-based MySQL-dialect tokenizer and must not end the lexing, otherwise the
+// rest of the statement is silently dropped.
+const endofinputwidth = 0
 
 func (q *Command) Sanitize(args ...any) (string, error) {
 	argUse := make([]bool, len(args))
@@ -169,7 +169,7 @@ func rawState(l *sqlLexer) stateFn {
 				return oneLineCommentState
 			}
 		case utf8.RuneError:
-			if width != replacementcharacterwidth {
+			if width == endofinputwidth {
 				if l.pos-l.start > 0 {
 					l.parts = append(l.parts, l.src[l.start:l.pos])
 					l.start = l.pos
@@ -197,7 +197,7 @@ func singleQuoteState(l *sqlLexer) stateFn {
 			}
 			l.pos += width
 		case utf8.RuneError:
-			if width != replacementcharacterwidth {
+			if width == endofinputwidth {
 				if l.pos-l.start > 0 {
 					l.parts = append(l.parts, l.src[l.start:l.pos])
 					l.start = l.pos
@@ -225,7 +225,7 @@ func doubleQuoteState(l *sqlLexer) stateFn {
 			}
 			l.pos += width
 		case utf8.RuneError:
-			if width != replacementcharacterwidth {
+			if width == endofinputwidth {
 				if l.pos-l.start > 0 {
 					l.parts = append(l.parts, l.src[l.start:l.pos])
 					l.start = l.pos
@@ -250,7 +250,7 @@ func backtickState(l *sqlLexer) stateFn {
 			}
 			l.pos += width
 		case utf8.RuneError:
-			if width != replacementcharacterwidth {
+			if width == endofinputwidth {
 				if l.pos-l.start > 0 {
 					l.parts = append(l.parts, l.src[l.start:l.pos])
 					l.start = l.pos
@@ -298,7 +298,7 @@ func escapeStringState(l *sqlLexer) stateFn {
 			}
 			l.pos += width
 		case utf8.RuneError:
-			if width != replacementcharacterwidth {
+			if width == endofinputwidth {
 				if l.pos-l.start > 0 {
 					l.parts = append(l.parts, l.src[l.start:l.pos])
 					l.start = l.pos
@@ -318,7 +318,7 @@ func oneLineCommentState(l *sqlLexer) stateFn {
 		case '\n':
 			return rawState
 		case utf8.RuneError:
-			if width != replacementcharacterwidth {
+			if width == endofinputwidth {
 				if l.pos-l.start > 0 {
 					l.parts = append(l.parts, l.src[l.start:l.pos])
 					l.start = l.pos
@@ -346,7 +346,7 @@ func multilineCommentState(l *sqlLexer) stateFn {
 			return rawState
 
 		case utf8.RuneError:
-			if width != replacementcharacterwidth {
+			if width == endofinputwidth {
 				if l.pos-l.start > 0 {
 					l.parts = append(l.parts, l.src[l.start:l.pos])
 					l.start = l.pos
